@@ -279,6 +279,43 @@ def run_case(case: dict) -> dict:
                 if any(not core.close(ic3[k], exp3[k]) for k in exp3):
                     viols.append(core.viol("after reading result views and re-declaring a parameter, initial conditions differ from t=0 resolution", None, parameter=tp, value=newp, got=ic3, expected=exp3, spec=spec))
                 counters["parameter re-declared after result views were read"] = 1
+        # a variable whose initial value is assigned is made static without a value: it is an assignment-defined parameter from
+        # then on (resolved once at time zero, the same for every state and time), and what depends only on it and on
+        # parameters is a derived parameter
+        iav = [c["name"] for c in spec["components"] if c["kind"] == "variable" and "ia" in c]
+        if iav and rng.random() < 0.5:
+            tv = rng.choice(iav)
+            spec_s = copy.deepcopy(spec)
+            for c in spec_s["components"]:
+                if c["kind"] == "variable" and c["name"] == tv:
+                    c["kind"] = "parameter"
+                if c["kind"] == "reaction":
+                    c["stoich"] = {k_: v_ for k_, v_ in c["stoich"].items() if k_ != tv}
+                if c["kind"] == "surrogate":
+                    c["stoich"] = {f_: {k_: v_ for k_, v_ in st_.items() if k_ != tv} for f_, st_ in c.get("stoich", {}).items()}
+            try:
+                ref_s = rm.Ref(spec_s)
+            except Exception:  # noqa: BLE001
+                ref_s = None
+            if ref_s is not None:
+                m_s = rm.build(spec)
+                m_s.get_args()
+                m_s.make_variable_static(tv)
+                ct.register(m_s, ref_s)
+                try:
+                    if tv not in m_s.get_parameter_names():
+                        viols.append(core.viol("a variable with an assigned initial value, made static, is not a parameter", None, name=tv, parameters=m_s.get_parameter_names(), spec=spec))
+                    dp_s, dv_s = set(m_s.get_derived_parameter_names()), set(m_s.get_derived_variable_names())
+                    if dp_s != set(ref_s.derived_parameters()) or dv_s != set(ref_s.derived_variables()):
+                        viols.append(core.viol("derived parameter / derived variable classification differs after a variable was made static", None, name=tv,
+                                               got_parameters=sorted(dp_s), expected_parameters=sorted(ref_s.derived_parameters()), spec=spec))
+                    m_s.get_args()
+                    st_s = rm.random_state(ref_s, rng)
+                    m_s.get_args(st_s, 1.75)
+                    m_s.get_right_hand_side(st_s, 1.75)
+                    counters["assigned variable made static without a value"] = 1
+                finally:
+                    ct.unregister(m_s)
     except Exception as e:  # noqa: BLE001
         import traceback
 
